@@ -383,7 +383,35 @@ def calc_exprs(rng: random.Random, n_random: int):
                     out.add("".join(parts))
     for _ in range(n_random):
         out.add(gen(rng.randint(1, 4)))
+    # the same expressions laid out with tabs and line breaks (WHITESPACE = " " | "\t" | NEWLINE)
+    for e in sorted(out)[:: max(1, len(out) // 150)]:
+        for sep in ("\n", "\t", "\r\n", "\r", " \n "):
+            if " " in e:
+                out.add(e.replace(" ", sep))
+        out.add("\n" + e + "\r\n")
     return sorted(out)
+
+
+def _fresh_calculator_parsers():
+    """The calculators import generated parser modules (examples/calculator/parser.py and
+    grammar_encoded_prec_parser.py). The checked-in files are snapshots; like the test suite, regenerate them
+    from the library under test — in memory, nothing is written to /repo."""
+    import types
+    if "examples.calculator.parser" in sys.modules and getattr(sys.modules["examples.calculator.parser"], "_verif_fresh", False):
+        return
+    from pest import Parser
+    import examples.calculator  # noqa: F401  (package object)
+    for mod, pest_file in (("examples.calculator.parser", "examples/calculator/calculator.pest"),
+                           ("examples.calculator.grammar_encoded_prec_parser", "examples/calculator/grammar_encoded_prec.pest")):
+        with open(os.path.join(REPO, pest_file), encoding="utf-8") as fd:
+            src = Parser.from_grammar(fd.read()).generate()
+        m = types.ModuleType(mod)
+        m.__file__ = f"<generated from {pest_file}>"
+        m.__package__ = "examples.calculator"
+        m._verif_fresh = True
+        sys.modules[mod] = m
+        exec(compile(src, m.__file__, "exec"), m.__dict__)  # noqa: S102
+        setattr(sys.modules["examples.calculator"], mod.rsplit(".", 1)[1], m)
 
 
 def calc_chunk(exprs):
@@ -391,6 +419,7 @@ def calc_chunk(exprs):
     cwd = os.getcwd()
     os.chdir(REPO)
     try:
+        _fresh_calculator_parsers()
         from examples.calculator.grammar_encoded_prec import parse_program as gp_program
         from examples.calculator.grammar_encoded_prec_parser import parse as gp_parse
         from examples.calculator.parser import Rule, parse
